@@ -32,6 +32,7 @@ def normalise(raw):
         out.append({"ev": "Reset"})
         tok2r = {}
         pending_use = {}
+        pending_data = {}
         started = False
         for e in rnd:
             ev = e["ev"]
@@ -50,9 +51,12 @@ def normalise(raw):
                 elif e.get("class") == "data":
                     nreq += 1
                     tok2r[e["t"]] = nreq
+                    pending_data[(e["c"], e["stream"])] = nreq
                     out.append({"ev": "Submit", "c": e["c"], "r": nreq})
             elif ev == "ClientRecv":
-                if pending_use.pop((e["c"], e["stream"]), None):
+                if (e["c"], e["stream"]) in pending_data:
+                    out.append({"ev": "DataReply", "r": pending_data.pop((e["c"], e["stream"])), "kind": e["kind"]})
+                elif pending_use.pop((e["c"], e["stream"]), None):
                     msg = e.get("msg", "")
                     out.append({"ev": "UseReply", "c": e["c"], "kind": e["kind"], "ks": e.get("setks", ""),
                                 "msgok": "does not exist" in msg})
